@@ -58,7 +58,9 @@ namespace riddle
                     switch (ch = next_char())
                     {
                     case '*':
-                        if ((ch = next_char()) == '/')
+                        while ((ch = next_char()) == '*') // a run of stars may precede the closing slash..
+                            ;
+                        if (ch == '/')
                         {
                             ch = next_char();
                             return next();
